@@ -226,3 +226,38 @@ def ALLSTR(x):
         if not STRV(s):
             return False
     return True
+
+
+# ---- class constructors (G9) -----------------------------------------------------------------------------------------
+
+def TOCHAR(c):
+    # the single character a string or a Pregex text stands for ('\\x' stands for x), else None
+    if not STRV(c) and not PREGEX(c):
+        return None
+    t = RAWTEXT(c)
+    if len(t) == 2 and t[0] == '\\':
+        t = t[1]
+    if len(t) == 1:
+        return t
+    return None
+
+
+def CESC(ch):
+    # a character as written inside brackets
+    if ch in ('\\', '^', '[', ']', '-', '/'):
+        return '\\' + ch
+    return ch
+
+
+def ALLCHARS(chars):
+    for c in chars:
+        if NONE(TOCHAR(c)):
+            return False
+    return True
+
+
+def JOINCESC(chars):
+    out = ''
+    for c in chars:
+        out = out + CESC(TOCHAR(c))
+    return out
